@@ -58,6 +58,8 @@ def cases(tier, rng):
         # every position for small data: exhaustive in the position
         for n in range(4, 25 if tier == 'thorough' else 17):
             yield {'k': 'fixpos-allpos', 'n': n, 'target': 'r', 'pat': 'rand'}
+            yield {'k': 'fixpos-allpos', 'n': n, 'target': 'r', 'pat': 'ones'}
+            yield {'k': 'fixpos-allpos', 'n': n, 'target': 0xffffffff, 'pat': 'zero'}
             yield {'k': 'back-allpos', 'n': n, 'pat': 'rand'}
         for width in (8, 16, 24, 32, 40, 48, 64, 12, 13, 31, 33, 63):
             for n in (1, 2, 9, 20):
